@@ -186,11 +186,14 @@ impl<T: Qcow2IoOps> Qcow2Dev<T> {
         let cluster_lock = {
             #[cfg(qcow2_rs_verif)]
             crate::verif::probe("dwdf:wait-map-read");
-            let cls_map = self.new_cluster.read().await;
+            // Take a handle of the per-cluster lock and let the map go
+            // before waiting for it: whoever holds that lock may need the
+            // map's write lock to finish.
+            let cluster = self.new_cluster.read().await.get(&key).cloned();
             // keep this cluster locked, so that concurrent discard can
             // be avoided
 
-            match cls_map.get(&key) {
+            match cluster {
                 Some(cluster) => {
                     #[cfg(qcow2_rs_verif)]
                     crate::verif::probe("dwdf:wait-cluster-write");
